@@ -12,7 +12,7 @@ import sys
 from harness import core
 from harness.core import hx, outcome
 
-LEAN_MODULES = ['CpProps.C11']
+LEAN_MODULES = ['CpProps.C11', 'CpProps.C11b']
 RULE = ('fixed-width integers: every value 0..2^16-1 for widths 1-2 and boundary/seeded values (in range and out of '
         'range, negative) for widths 3,4,8 under all four byte orders; flags: seeded subsets of every flag enumeration '
         'used with parse_numeric_flags; mpints: integers up to 4096 bits of both signs with bit lengths 8k-1,8k,8k+1; '
@@ -277,7 +277,16 @@ class MpintOracle(object):
                 length = max(1, (v.bit_length() + 7) // 8) + case['pad']
                 out.append('CM {} {}'.format(length, v))
                 out.append('PM {} {}'.format(length, hx(v.to_bytes(length, 'big') + b'\x01')))
+                for small in MpintOracle.small_lengths(v):
+                    out.append('CM {} {}'.format(small, v))
+            else:
+                out.append('CM {} {}'.format((v.bit_length() + 8) // 8, v))
         return out
+
+    @staticmethod
+    def small_lengths(v):
+        nbytes = max(1, (v.bit_length() + 7) // 8)
+        return sorted({x for x in (1, nbytes // 4, nbytes // 8, nbytes - 1) if 1 <= x < nbytes})
 
     @staticmethod
     def _cs(v):
@@ -329,6 +338,10 @@ class MpintOracle(object):
                 length = max(1, (v.bit_length() + 7) // 8) + case['pad']
                 out.append(cls._cm(v, length))
                 out.append(cls._pm(v.to_bytes(length, 'big') + b'\x01', length))
+                for small in cls.small_lengths(v):
+                    out.append(cls._cm(v, small))
+            else:
+                out.append(cls._cm(v, (v.bit_length() + 8) // 8))
         return out
 
     @classmethod
@@ -360,9 +373,18 @@ class MpintOracle(object):
                 back = cls._pm(want + b'\x01', length)
                 if back != 'OK {} {}'.format(length, v):
                     bad.append(('mpint-parse', 'parse_mpint({}) of {} = {}'.format(length, hx(want), back)))
-                if length > 1 and v >= 256 ** (length - 1) and cls._cm(v, length - 1) != 'ERR InvalidValue':
-                    bad.append(('mpint-range', 'compose_mpint({}, {}) does not fit but gave {}'.format(
-                        v, length - 1, cls._cm(v, length - 1))))
+                for small in cls.small_lengths(v):
+                    if cls._cm(v, small) != 'ERR InvalidValue':
+                        bad.append(('mpint-range', 'compose_mpint({}, {}) does not fit but gave {}'.format(
+                            v, small, cls._cm(v, small))))
+            else:
+                length = (v.bit_length() + 8) // 8
+                got = cls._cm(v, length)
+                if got.startswith('OK '):
+                    back = cls._pm(core.unhx(got[3:]), length)
+                    if back != 'OK {} {}'.format(length, v):
+                        bad.append(('mpint-fixed-negative', 'compose_mpint({}, {}) = {} parses back as {}'.format(
+                            v, length, got, back)))
         return bad
 
 
